@@ -239,6 +239,7 @@ type run struct {
 	helpers      sync.WaitGroup
 	finished     atomic.Bool
 	setsBefore   int
+	setsAtReturn int // read-deadline sets on the transport when the constructor returned
 	actionNote   string
 
 	sess      *xmpp.Session
@@ -266,6 +267,7 @@ func (r *run) construct(done chan struct{}) {
 		rw = bufconn.NoDeadline{C: r.lib}
 	}
 	r.sess, r.err = r.a.call(r.ctx, rw, r.log)
+	r.setsAtReturn, _ = r.lib.DeadlineSets()
 	r.returned = true
 }
 
@@ -835,6 +837,17 @@ func one(c *core.Case, h *handshake, f fault) {
 			return
 		}
 		c.Count("cancellations_without_deadlines", 1)
+	}
+	if cancelKind && r.returned && f.K%4 == 0 && !h.TLS {
+		// Once the constructor has returned the connection is the caller's again:
+		// the helper that applied the cancellation to its deadlines is part of the
+		// call and must be finished (it would otherwise clear or arm deadlines
+		// under the feet of whatever uses the connection next).
+		time.Sleep(2 * time.Millisecond)
+		if after, _ := r.lib.DeadlineSets(); after > r.setsAtReturn {
+			c.Violate("outlive:cancel:deadline-set-after-return", "%s (%s): the constructor returned (err=%v) after its context was cancelled, and afterwards the library set the transport's deadline %d more time(s): its deadline helper outlives the call", h.Name, h.Role, r.err, after-r.setsAtReturn)
+		}
+		c.Count("cancelled_runs_checked_for_deadline_sets_after_return", 1)
 	}
 	if cancelKind {
 		if r.cancelCalled.Load() {
